@@ -8,6 +8,7 @@ package sqlhist
 // on a scratch branch created at `from` and must reproduce `to`.
 
 import (
+	"encoding/json"
 	"fmt"
 	"os"
 	"sort"
@@ -32,6 +33,7 @@ const (
 	c32FRenameDropIdx = "C32-patch-rename-table-drop-index"    // after RENAME TABLE the DROP INDEX statements still name the old table: error 1146
 	c32FDefaultNull   = "C32-patch-added-default-column-null"  // a column added with a DEFAULT: rows holding NULL in it at `to` get no UPDATE and keep the default
 	c32FDefaultChange = "C32-patch-default-change-ignored"     // a changed column DEFAULT produces no statement
+	c32FSameName      = "C32-patch-same-name-other-column"     // a dropped column and a new column of the same name but another type: the old value is compared as the new column's old value (query error or missing UPDATE)
 	c32FRenameOnto    = "C32-patch-rename-onto-dropped-column" // RENAME COLUMN x TO y is emitted before DROP y: error "column already exists"
 	c32FColOrder      = "C32-patch-column-position"            // ADD COLUMN is emitted without FIRST/AFTER: the patched table has another column order than `to`
 )
@@ -178,6 +180,22 @@ func c32ShapeDefaultChange(from, to *hTable) bool {
 	for _, tc := range to.Cols {
 		for _, fc := range from.Cols {
 			if (fc.UID == tc.UID || (fc.Name == tc.Name && fc.Type == tc.Type)) && fc.Def != tc.Def {
+				return true
+			}
+		}
+	}
+	return false
+}
+
+// c32ShapeSameName: `to` has a column that shares its name, but neither identity nor type,
+// with a column of `from`.
+func c32ShapeSameName(from, to *hTable) bool {
+	if from == nil || to == nil {
+		return false
+	}
+	for _, tc := range to.Cols {
+		for _, fc := range from.Cols {
+			if fc.Name == tc.Name && fc.UID != tc.UID && fc.Type != tc.Type {
 				return true
 			}
 		}
@@ -799,7 +817,8 @@ func (c *c32Checker) patch(fi, ti int) {
 		}
 		if (c32ShapeDropIdxCol(from, to) && c32Excluded(c32FDropIdxCol)) || (c32ShapePKIndex(from, to) && c32Excluded(c32FPKIndex)) ||
 			(c32ShapeRenamedNull(from, to) && c32Excluded(c32FRenamedNull)) || (c32ShapeRenameOnto(from, to) && c32Excluded(c32FRenameOnto)) ||
-			(c32ShapeDefaultNull(from, to) && c32Excluded(c32FDefaultNull)) || (c32ShapeDefaultChange(from, to) && c32Excluded(c32FDefaultChange)) {
+			(c32ShapeDefaultNull(from, to) && c32Excluded(c32FDefaultNull)) || (c32ShapeDefaultChange(from, to) && c32Excluded(c32FDefaultChange)) ||
+			(c32ShapeSameName(from, to) && c32Excluded(c32FSameName)) {
 			c.st.excluded++
 			return
 		}
@@ -951,6 +970,86 @@ func (c *c32Checker) diffTable() {
 	}
 }
 
+// c32Pinned is one pinned reproduction: statements building commit A, statements building
+// commit B; dolt_patch(A,B) applied to a branch at A must reproduce B.
+type c32Pinned struct {
+	id   string
+	a, b []string
+}
+
+var c32PinnedCases = []c32Pinned{
+	{c32FDropIdxCol, []string{"CREATE TABLE t (pk INT PRIMARY KEY, c INT, KEY ix (c))", "INSERT INTO t VALUES (1,1)"}, []string{"ALTER TABLE t DROP COLUMN c"}},
+	{c32FPKIndex, []string{"CREATE TABLE other (pk INT PRIMARY KEY)"}, []string{"CREATE TABLE t (pk INT PRIMARY KEY, c INT)", "CREATE INDEX ix ON t (pk)"}},
+	{c32FRenamedNull, []string{"CREATE TABLE t (pk INT PRIMARY KEY, c1 VARCHAR(20))", "INSERT INTO t VALUES (1,'x'),(2,'y')"}, []string{"ALTER TABLE t RENAME COLUMN c1 TO c4", "UPDATE t SET c4 = NULL WHERE pk = 1"}},
+	{c32FRenameDropIdx, []string{"CREATE TABLE t (pk INT PRIMARY KEY, c INT, KEY ix (c))", "INSERT INTO t VALUES (1,1)"}, []string{"RENAME TABLE t TO u", "ALTER TABLE u DROP INDEX ix"}},
+	{c32FColOrder, []string{"CREATE TABLE t (pk INT PRIMARY KEY, c INT)", "INSERT INTO t VALUES (1,1)"}, []string{"ALTER TABLE t ADD COLUMN d INT AFTER pk"}},
+	{c32FRenameOnto, []string{"CREATE TABLE t (pk INT PRIMARY KEY, c1 TEXT, c0 VARBINARY(20))", "INSERT INTO t VALUES (1,'x',X'00')"}, []string{"ALTER TABLE t DROP COLUMN c0", "ALTER TABLE t RENAME COLUMN c1 TO c0"}},
+	{c32FDefaultNull, []string{"CREATE TABLE t (pk INT PRIMARY KEY, c INT)", "INSERT INTO t VALUES (1,1),(2,2)"}, []string{"ALTER TABLE t ADD COLUMN d INT DEFAULT -3", "UPDATE t SET d = NULL WHERE pk = 1"}},
+	{c32FDefaultChange, []string{"CREATE TABLE t (pk INT PRIMARY KEY, c INT)", "INSERT INTO t VALUES (1,1)"}, []string{"ALTER TABLE t MODIFY COLUMN c INT DEFAULT 3"}},
+	{c32FSameName, []string{"CREATE TABLE t (pk INT PRIMARY KEY, c3 DECIMAL(12,2))", "INSERT INTO t VALUES (0,-0.03)"}, []string{"ALTER TABLE t DROP COLUMN c3", "ALTER TABLE t ADD COLUMN c3 DATETIME(6)", "UPDATE t SET c3 = '2000-04-22 03:00:20'"}},
+}
+
+// c32RunPinned returns "" when the patch round trip reproduces commit B, else what went wrong.
+func c32RunPinned(t *testing.T, srv *vsql.Server, admin *vsql.Session, pc c32Pinned) string {
+	db := srv.NewDBName()
+	admin.MustExec(t, "CREATE DATABASE "+db)
+	defer admin.Exec("DROP DATABASE " + db)
+	w := srv.Session(t, "w", db)
+	defer w.Close()
+	for _, q := range pc.a {
+		w.MustExec(t, q)
+	}
+	ha := w.MustQuery(t, "CALL dolt_commit('-A','-m','A')").Data[0][0]
+	for _, q := range pc.b {
+		w.MustExec(t, q)
+	}
+	hb := w.MustQuery(t, "CALL dolt_commit('-A','-m','B')").Data[0][0]
+	rows, err := w.Query(fmt.Sprintf("SELECT statement FROM dolt_patch('%s','%s') ORDER BY statement_order", ha, hb))
+	if err != nil {
+		return fmt.Sprintf("dolt_patch(A,B) failed: %v", err)
+	}
+	w.MustExec(t, fmt.Sprintf("CALL dolt_branch('scr','%s')", ha))
+	p := srv.Session(t, "p", db+"/scr")
+	defer p.Close()
+	var stmts []string
+	for _, r := range rows.Data {
+		stmts = append(stmts, r[0])
+	}
+	for _, st := range stmts {
+		if err := p.Exec(st); err != nil {
+			return fmt.Sprintf("patch statement %q fails on a branch at A: %v (patch: %s)", st, err, strings.Join(stmts, " "))
+		}
+	}
+	tb, err1 := p.Query("SHOW TABLES")
+	tw, err2 := w.Query("SHOW TABLES")
+	if err1 != nil || err2 != nil {
+		return fmt.Sprintf("SHOW TABLES: %v / %v", err1, err2)
+	}
+	if !vsql.EqualStrings(tb.Sorted(), tw.Sorted()) {
+		return fmt.Sprintf("tables after patch %q, at B %q (patch: %s)", tb.Sorted(), tw.Sorted(), strings.Join(stmts, " "))
+	}
+	for _, r := range tw.Data {
+		name := r[0]
+		got, err1 := p.Query("SELECT * FROM `" + name + "`")
+		want, err2 := w.Query("SELECT * FROM `" + name + "`")
+		if err1 != nil || err2 != nil {
+			return fmt.Sprintf("read %s: %v / %v", name, err1, err2)
+		}
+		if !vsql.EqualStrings(got.Cols, want.Cols) || !vsql.EqualStrings(got.Sorted(), want.Sorted()) {
+			return fmt.Sprintf("table %s after patch: %v; at B: %v (patch: %s)", name, got, want, strings.Join(stmts, " "))
+		}
+		sc, err1 := p.Query("SHOW CREATE TABLE `" + name + "`")
+		sw, err2 := w.Query("SHOW CREATE TABLE `" + name + "`")
+		if err1 != nil || err2 != nil {
+			return fmt.Sprintf("SHOW CREATE TABLE %s: %v / %v", name, err1, err2)
+		}
+		if sc.Data[0][1] != sw.Data[0][1] {
+			return fmt.Sprintf("SHOW CREATE TABLE %s after patch: %q; at B: %q (patch: %s)", name, sc.Data[0][1], sw.Data[0][1], strings.Join(stmts, " "))
+		}
+	}
+	return ""
+}
+
 const c32Rule = "rapid-generated histories of 2..4 commits (+ the empty initial commit) of row edits over INT,BIGINT,VARCHAR,VARBINARY,DECIMAL,DATE,DATETIME(6),JSON,TEXT values (NULLs, quotes, backslashes, NUL bytes, newlines, binary) and schema changes (ADD/DROP/RENAME/MODIFY COLUMN, CREATE/DROP INDEX, CREATE/DROP/RENAME TABLE, tables re-created under an old name); for every ordered pair of commits dolt_diff(from,to,t) is compared row by row with the diff of the recorded models (every reported row: right key, diff_type, from_/to_ values, once; every added/removed row and every row with a changed common column or a non-NULL value in an added column reported), dolt_diff_stat and dolt_diff_summary with the model's counts and changed-table set, dolt_diff_<t> for parent/child pairs, and the statements of dolt_patch(from,to) are executed in order on a scratch branch created at `from`, after which table set, rows and SHOW CREATE TABLE must equal `to`. Non-trivial: the pair set of the case contains added, removed and modified rows, a pair with a schema change, and a value that needs escaping; distinct by operation sequence."
 
 func c32Run(t *testing.T, rec *vh.Recorder, part string, quick, thorough int, cfg hConfig, opts c32Opts) {
@@ -963,6 +1062,23 @@ func c32Run(t *testing.T, rec *vh.Recorder, part string, quick, thorough int, cf
 	defer srv.Stop()
 	admin := srv.Session(t, "admin", "")
 	defer admin.Close()
+	for _, pc := range c32PinnedCases {
+		pc := pc
+		t.Run("pinned_"+pc.id, func(t *testing.T) {
+			msg := c32RunPinned(t, srv, admin, pc)
+			rec.Evals(1)
+			if msg == "" {
+				return
+			}
+			if vh.OpenFinding("C32", pc.id) {
+				vh.ReportKnown("C32", pc.id, msg)
+				return
+			}
+			detail, _ := json.Marshal(map[string]any{"finding": pc.id, "commit_A": pc.a, "commit_B": pc.b, "then": "apply the statements of dolt_patch(A,B) to a branch created at A", "observed": msg})
+			vh.NoteViolation(t.Name(), "", string(detail))
+			t.Errorf("%s: %s", pc.id, msg)
+		})
+	}
 	vh.Check(t, part, quick, thorough, func(rt *rapid.T) {
 		db := srv.NewDBName()
 		admin.MustExec(rt, "CREATE DATABASE "+db)
